@@ -31,7 +31,9 @@ def render_element(kind, rng, used_acre_lots):
         n = _lotnum(rng)
         # acreages as they are written: two decimals, one, four, or none; tight against the number or after a blank
         ac = rng.choice(["%d.%02d" % (rng.randint(10, 49), rng.randint(0, 99)), "%d.%d" % (rng.randint(10, 49), rng.randint(0, 9)),
-                         "%d.%04d" % (rng.randint(10, 49), rng.randint(0, 9999)), "%d" % rng.randint(10, 49)])
+                         "%d.%04d" % (rng.randint(10, 49), rng.randint(0, 9999)), "%d" % rng.randint(10, 49),
+                         # (small, zero and large stated acreages: the statement is attributed whatever it says)
+                         rng.choice(["0.00", "0", "0.0", ".50", "0.25", "160.00", "640"])])
         br = rng.choice(["()", "[]"])
         el = {"kind": kind, "text": "Lot %d%s%s%s%s" % (n, rng.choice([" ", " ", ""]), br[0], ac, br[1]), "lot": "L%d" % n, "ac": ac}
         return el
